@@ -318,6 +318,12 @@ def pq_run_state(proc, n):
         if "Options" in str(e):
             return "not usable with this QuTiP (qutip.Options)"
         raise
+    except Exception as e:
+        # the ODE solver giving up (default nsteps) is runtime numerics, not a purity question: the call is
+        # still exercised as a query that must leave pulses, phases and arguments unchanged
+        if type(e).__name__ == "IntegratorException":
+            return "solver step limit (IntegratorException)"
+        raise
     return r.states[-1]
 
 
